@@ -856,4 +856,49 @@ theorem force_err (n : Nat) (ih : AllSpec n) (ihe : ErrSpec n) (id : Nat) (s s' 
             exact ⟨hw3.restore _, he1.trans (he3.trans (TExt.same rfl rfl)), r2.trans g6, r1.trans g2⟩
           · simp only [run_bind, run_modify, run_pure] at hfin; cases hfin
 
+/-! ## The induction on the fuel -/
+
+theorem errSpec_zero : ErrSpec 0 where
+  exec := fun b s s' top rest i _ _ _ h => by simp only [VM.exec, run_throw] at h; cases h
+  resolved := fun s s' f args _ _ h => by simp only [VM.callResolved, run_throw] at h; cases h
+  loop := fun b st s s' _ _ _ _ h => by rw [runLoop_zero] at h; cases h
+  run := fun b s s' top _ _ _ _ _ h => by simp only [VM.run, run_throw] at h; cases h
+  nested := fun f st s s' _ _ _ _ _ h => by simp only [VM.nested, run_throw] at h; cases h
+  eval := fun e s s' _ _ h => by simp only [VM.evalCallExpr, run_throw] at h; cases h
+  prep := fun f i args s s' _ _ h => by
+    cases args with
+    | nil => simp only [VM.prepareArgs, run_throw] at h; cases h
+    | cons e es => simp only [VM.prepareArgs, run_throw] at h; cases h
+  user := fun name k s s' tail _ _ h => by simp only [VM.callUser, run_throw] at h; cases h
+  builtin := fun name args s s' _ _ _ h => by simp only [VM.builtin, run_throw] at h; cases h
+  apply := fun f args s s' _ _ _ _ h => by simp only [VM.applyFn, run_throw] at h; cases h
+  mapArr := fun f r i k s s' _ _ _ h => by simp only [VM.mapArr, run_throw] at h; cases h
+  mapList := fun f l s s' _ _ _ _ h => by simp only [VM.mapList, run_throw] at h; cases h
+  force := fun id s s' _ h => by simp only [VM.forceLazy, run_throw] at h; cases h
+
+theorem errSpec (hnp : NoBuiltinPanic) : ∀ n, ErrSpec n
+  | 0 => errSpec_zero
+  | n + 1 =>
+    have ih := allSpec' n
+    have ihe := errSpec hnp n
+    { exec := fun b s s' top rest i hw hr hf h => exec_err n ih ihe b s s' top rest i hw hr hf h
+      resolved := fun s s' f args hw ho h => resolved_err n ih ihe s s' f args hw ho h
+      loop := fun b st s s' hw hl hb hm h => loop_err n ih ihe b st s s' hw hl hb hm h
+      run := fun b s s' top hw hr hb hm hl h => run_err n ih ihe b s s' top hw hr hb hm hl h
+      nested := fun f st s s' hw h2 hlt hp hpc h => nested_err n ih ihe f st s s' hw h2 hlt hp hpc h
+      eval := fun e s s' hw hok h => eval_err n ih ihe e s s' hw hok h
+      prep := fun f i args s s' hw hok h => prep_err n ih ihe args f i s s' hw hok h
+      user := fun name k s s' tail hw hd h => user_err hnp n ih ihe name k s s' tail hw hd h
+      builtin := fun name args s s' hw hpc ha h => builtin_err n ih ihe name args s s' hw hpc ha h
+      apply := fun f args s s' hw hpc hf ha h => apply_err n ih ihe f args s s' hw hpc hf ha h
+      mapArr := fun f r i k s s' hw hpc hf h => mapArr_err n ih ihe f r i k s s' hw hpc hf h
+      mapList := fun f l s s' hw hpc hf hl h => mapList_err n ih ihe f l s s' hw hpc hf hl h
+      force := fun id s s' hw h => force_err n ih ihe id s s' hw h }
+
+/-- **(C2) the error-path contract of the call instructions**: a failing `callArr`/`callExpr`
+(indeed any failing instruction) fetched by a `Running` loop leaves a `FaultOK` state — given
+that no Go builtin ends in a host panic from a well-formed state. -/
+theorem callFaultOK (hnp : NoBuiltinPanic) : CallFaultOK :=
+  fun b s₀ s₁ top rest i m hw hr hf _ h => (errSpec hnp m).exec b s₀ s₁ top rest i hw hr hf h
+
 end ZygoVerif.RunInv
